@@ -34,11 +34,9 @@ def quat? (qn : QuatN) : Option Fw.Quat := do
   let fs ← ([3, 2, 1, 0].filter (· != l)).mapM field
   pure { largest := l, fields := fs }
 
-/-- a list of base-station ids as a bit field: bit b set iff b is in the list (ids must be 0..15) -/
+/-- a list of base-station ids (each 0..15) as a bit field.  `bsMask_testBit` (Props): bit b is set iff b is in the list. -/
 def bsMask? (l : List Int) : Option Nat :=
-  if l.all (fun b => decide (0 ≤ b ∧ b ≤ 15)) then
-    some (((List.range 16).filter (fun (b : Nat) => l.contains (Int.ofNat b))).map (fun (b : Nat) => 2 ^ b)).sum
-  else none
+  if l.all (fun b => decide (0 ≤ b ∧ b ≤ 15)) then some (l.foldl (fun m b => m ||| 2 ^ b.toNat) 0) else none
 
 /-- 2*pi in binary64 / binary32 and their negations (IEEE patterns) -/
 def twoPi64 : Nat := 0x401921FB54442D18
@@ -113,6 +111,40 @@ def expected? (ver : Int) : Call → Option Fw.Cmd
   | .lopoReboot id mode => do pure (.shortLpp (← uint? 1 id) [2, UInt8.ofNat (← uint? 1 mode)])
   | .lopoMode id mode => do pure (.shortLpp (← uint? 1 id) [3, UInt8.ofNat (← uint? 1 mode)])
 
+/-- the documented CRTP port and channel of every command -/
+def docPortChan : Call → Nat × Nat
+  | .setpoint .. => (3, 0)                                   -- CRTP_PORT_SETPOINT
+  | .notifyStop _ => (7, 1)                                  -- CRTP_PORT_SETPOINT_GENERIC, meta channel
+  | .stopSetpoint | .velocityWorld .. | .zdistance .. | .hover .. | .fullState .. | .position .. => (7, 0)
+  | .hlGroupMask _ | .hlTakeoff .. | .hlLand .. | .hlStop _ | .hlGoTo .. | .hlSpiral .. | .hlStartTraj .. | .hlDefineTraj .. => (8, 0)
+  | .extpos .. | .extposWrap .. => (6, 0)                    -- CRTP_PORT_LOCALIZATION, EXT_POSITION
+  | .extpose .. | .extposeWrap .. | .shortLpp .. | .emergencyStop | .emergencyWatchdog | .lhPersist .. => (6, 1)
+  | .lopoPosition .. | .lopoReboot .. | .lopoMode .. => (6, 1)
+  | .contWave _ | .arming _ | .crashRecovery => (13, 0)      -- CRTP_PORT_PLATFORM, platformCommand
+
+/-- payload size = type/command byte (if any) + sizeof(the firmware's packed struct) -/
+def wireSize (ver : Int) : Call → Nat
+  | .setpoint .. => 14
+  | .notifyStop _ => 1 + 4
+  | .stopSetpoint => 1
+  | .velocityWorld .. | .zdistance .. | .hover .. | .position .. => 1 + 16
+  | .fullState .. => 1 + 28
+  | .hlGroupMask _ | .hlStop _ => 1 + 1
+  | .hlTakeoff .. | .hlLand .. => 1 + 14
+  | .hlGoTo .. => if ver < 8 then 1 + 22 else 1 + 23
+  | .hlSpiral .. => 1 + 23
+  | .hlStartTraj .. => 1 + 8
+  | .hlDefineTraj .. => 1 + 8
+  | .extpos .. | .extposWrap .. => 12
+  | .extpose .. | .extposeWrap .. => 1 + 28
+  | .shortLpp _ data => 2 + data.length
+  | .emergencyStop | .emergencyWatchdog => 1
+  | .lhPersist .. => 1 + 4
+  | .contWave _ | .arming _ => 2
+  | .crashRecovery => 1
+  | .lopoPosition .. => 2 + 13
+  | .lopoReboot .. | .lopoMode .. => 2 + 2
+
 /-- what the anchor must understand from the payload of the three LoPoAnchor calls -/
 def expectedLpp? : Call → Option Fw.Lpp
   | .lopoPosition _ x y z => do pure (.position (← f32? x) (← f32? y) (← f32? z))
@@ -129,15 +161,13 @@ def Num.isIntZero : Num → Bool
 * an argument that the code negates (`-pitch`, legacy `-yawrate`) is not the Python *int* 0: for it the wire
   carries +0.0 where a float 0.0 gives -0.0 — the same number, another bit pattern (theorem `neg_int_zero`);
 * full state: the scaled magnitudes of the non-largest components of the normalised quaternion fit 9 bits
-  (a real-number fact about |q_i| <= 1/sqrt 2, property C13's side; the integer layout is proved here);
-* lighthouse persist: the base-station lists have no duplicates (see `lh_persist_duplicate_counterexample`). -/
+  (a real-number fact about |q_i| <= 1/sqrt 2, property C13's side; the integer layout is proved here). -/
 def Call.Pre (ver : Int) : Call → Prop
   | .setpoint xmode _ pitch _ mixPitch _ _ => (if xmode then mixPitch else pitch).isIntZero = false
   | .velocityWorld _ _ _ yawrate => ver ≤ 8 → yawrate.isIntZero = false
   | .zdistance _ _ yawrate _ => ver ≤ 8 → yawrate.isIntZero = false
   | .hover _ _ yawrate _ => ver ≤ 8 → yawrate.isIntZero = false
   | .fullState _ _ _ quat _ => ∀ i, i < 4 → i ≠ iLargest quat → ∀ m : Nat, f64ToInt (quat.get i).t = .ok (m : Int) → m < 512
-  | .lhPersist geo calib => geo.Nodup ∧ calib.Nodup
   | _ => True
 
 end CfVerif.C08
